@@ -25,8 +25,27 @@ func c07Quality(q, text string) (int, bool) {
 	return m[0].Score, true
 }
 
+// c07Typos: misspellings the loaded word table knows (requests made of them are asked in the first phase after the load).
+var c07Typos []string
+
+// c07Huge: more than 65536 entries, the only entries that hold the request's letters in order sitting at the very end.
+func c07Huge(ctx *Ctx, r *rand.Rand) {
+	if !ctx.Thorough && ctx.Shard%4 != 1 {
+		return
+	}
+	n := []int{70001, 66003, 65600, 131101}[(ctx.Shard/4)%4]
+	var db *database.Database
+	if !ctx.R.Guard("C07", "LoadDatabase", fmt.Sprintf("huge-%d", n), func() { db, _ = vlib.HugeDB(r, n, 37) }) {
+		return
+	}
+	c07Typos = nil
+	c07Phase(ctx, r, db, fmt.Sprintf("huge-%d", n), "load", 4, []string{vlib.TailWord, vlib.TailWord})
+	ctx.R.Path("databases-over-65536-entries", 1)
+}
+
 func engineFuzzy(ctx *Ctx) {
 	r := vlib.NewRand(ctx.Seed, ctx.Shard, "fuzzy")
+	c07Huge(ctx, r)
 	nDB := ctx.N(240, 12000)
 	nQ := ctx.Pick(50, 70)
 	for d := 0; d < nDB; d++ {
@@ -59,6 +78,36 @@ func engineFuzzy(ctx *Ctx) {
 			if !ctx.R.Guard("C07", "LoadDatabase", dbName, func() { db = vlib.MustLoad(cmds0) }) {
 				continue
 			}
+			if g%5 == 2 && len(db.Commands) > 0 && len(db.Commands) <= 200 {
+				// a semantic word table is loaded, and it knows common misspellings (a word with one letter dropped, close to the
+				// word it comes from): such a request matches nothing lexically, the fallback answers it, best match first
+				c07Typos = nil
+				syn := map[string]string{}
+				ws := vlib.DBWords(db.Commands)
+				for k := 0; k < 8 && len(ws) > 0; k++ {
+					w := ws[r.Intn(len(ws))]
+					if len(w) < 5 || !vlib.IsASCII(w) {
+						continue
+					}
+					i := 1 + r.Intn(len(w)-2)
+					t := w[:i] + w[i+1:]
+					syn[t] = w
+					c07Typos = append(c07Typos, t)
+				}
+				ok := false
+				ctx.R.Guard("C07", "LoadEmbeddings", dbName, func() { ok = attachEmbeddingsExtra(ctx, r, db, "unit", syn) })
+				if ok {
+					dbName += "/word-table-with-misspellings"
+					ctx.R.Path("databases-with-a-word-table-holding-misspellings", 1)
+				} else {
+					c07Typos = nil
+				}
+			} else {
+				c07Typos = nil
+			}
+		}
+		if dbName == "shipped" {
+			c07Typos = nil
 		}
 		nq := nQ
 		if dbName == "shipped" {
@@ -180,6 +229,11 @@ func c07Phase(ctx *Ctx, r *rand.Rand, db *database.Database, dbName, phase strin
 			q = m[:k] + m[k+1:]
 			marker = true
 			ctx.R.Path("marker-queries", 1)
+		}
+		if k := qi - 2*len(markers); phase == "load" && k >= 0 && k < len(c07Typos) {
+			q = c07Typos[k]
+			marker = true
+			ctx.R.Path("misspellings-the-word-table-knows", 1)
 		}
 		if q == "" {
 			continue
